@@ -189,6 +189,16 @@ def run(prog, rep, tier):
     else:
         raise Inconclusive("split_data: fold loop iterates %s" % fmt(it), inner["node"])
     apps = [c for c in S.select("call", qname=Q) if c.callkind == "method" and c.target == ".append" and lin in c.loops]
+    if len(apps) == 2 and apps[0].recv == apps[1].recv and len(apps[0].path) == len(apps[1].path) and apps[0].path and \
+            tuple(apps[0].path[:-1]) == tuple(apps[1].path[:-1]) and apps[0].path[-1][0] == apps[1].path[-1][0] and \
+            {apps[0].path[-1][1], apps[1].path[-1][1]} == {True, False}:
+        # `if c: folds[i].append(a) else: folds[i].append(b)` is `folds[i].append(a if c else b)`
+        import types
+        t_, e_ = (apps[0], apps[1]) if apps[0].path[-1][1] is True else (apps[1], apps[0])
+        merged = types.SimpleNamespace(**{k: getattr(t_, k) for k in ("recv", "node", "loops", "order", "kwargs", "callkind", "target", "kind", "qname")})
+        merged.path = tuple(t_.path[:-1])
+        merged.args = [("phi", t_.path[-1][0], t_.args[0], e_.args[0])]
+        apps = [merged]
     if len(apps) != 1:
         rep.bad("FLOW.append", fwhere(f, inner["node"]), "each fold iteration must append exactly one slice (found %d appends)" % len(apps))
         return
